@@ -36,10 +36,26 @@ PV = [
 DEFAULT_MODEL = dict(T=10 / 3600, tau=18 / 3600, eta=60.0, kappa=40.0, delta=0.0122, phi=1.8)
 
 
+def split(name):
+    """'rho_crit' -> ('rho_crit', None);  'rho_crit_L1' -> ('rho_crit', 1)  (a parameter of one link only)"""
+    if "_L" in name and name.rsplit("_L", 1)[1].isdigit():
+        base, i = name.rsplit("_L", 1)
+        return base, int(i)
+    return name, None
+
+
+def pval(pv, name):
+    base, i = split(name)
+    return pv[base] if i is None else pv[base] * (1.0 + 0.04 * (i + 1))
+
+
 def numeric_twin_spec(spec: NetSpec, subset, pv):
     links = []
-    for l in spec.links:
+    for i, l in enumerate(spec.links):
         kw = {p: pv[p] for p in LINKP if p in subset}
+        for p in LINKP:
+            if f"{p}_L{i}" in subset:
+                kw[p] = pval(pv, f"{p}_L{i}")
         links.append(replace(l, **kw))
     origins = tuple(replace(o, C=pv["C"]) if "C" in subset else o for o in spec.origins)
     return replace(spec, links=tuple(links), origins=origins)
@@ -54,6 +70,8 @@ def compile_sym(spec, sym, compact, declared):
         for p in LINKP:
             if p in syms:
                 override[(f"L{i}", p)] = syms[p]
+            if f"{p}_L{i}" in syms:
+                override[(f"L{i}", p)] = syms[f"{p}_L{i}"]
     for o in spec.origins:
         if "C" in syms:
             override[(f"O{o.node}", "C")] = syms["C"]
@@ -106,7 +124,7 @@ def check_one(spec, label, st, sym, compact, declared, vecs, problems, pvs=(0, 1
         try:
             Fn = compile_num(spec, sym, compact, set(declared), pv)
             layn = Layout(spec, compact=compact, more_out=True)
-            o_sym = eval_layout(F, lay, vals, pv)
+            o_sym = eval_layout(F, lay, vals, {d_: pval(pv, d_) for d_ in declared})
             o_num = eval_layout(Fn, layn, vals)
         except Exception as e:  # noqa: BLE001
             problems.append((f"C16/exception/{exc_site(e)}/{type(e).__name__}", f"{tag}: {exc_text(e)}", case))
@@ -127,6 +145,10 @@ def check_one(spec, label, st, sym, compact, declared, vecs, problems, pvs=(0, 1
 def subsets_for(idx, mode):
     subs = [()] + [(p,) for p in ALLP] + [ALLP]
     pairs = list(itertools.combinations(ALLP, 2))
+    if mode in ("rotating", "pairs"):
+        # parameters of individual links (one symbol per link instead of one shared by all links)
+        subs += [("rho_crit_L0", "rho_crit_L1", "rho_crit_L2", "rho_crit_L3"), ("a_L1", "v_free_L0", "L_L1", "T"),
+                 ("rho_max_L0", "C", "rho_max_L1")]
     if mode == "rotating":
         k = 3
         subs += [pairs[(idx * k + j) % len(pairs)] for j in range(k)]
@@ -149,6 +171,7 @@ def worker(item):
         for si, sub in enumerate(subsets_for(idx, plan["subsets"])):
             if si % K != k:
                 continue
+            sub = tuple(x for x in sub if split(x)[1] is None or split(x)[1] < len(spec.links))
             st.add_to("subsets", sub)
             for sym, compact in plan["variants"]:
                 check_one(spec, label, st, sym, compact, sub, vecs, problems,
